@@ -4,7 +4,20 @@ from pyvc.api import *
 
 SPEC_IMPORTS = ['contracts.common']
 SPEC_FUNCTIONS = ['is_scope_spec', 'is_param_name', 'in_header', 'stops_at', 'parent_scope_spec',
-                  'global_filters_spec', 'resets_position']
+                  'global_filters_spec', 'resets_position', 'branch_keyword_spec']
+
+
+def branch_keyword_spec(children, pos):
+    """the branch of a flow statement that a position lies in is identified by the keyword LEAF that opens it: the last
+    child before the position that starts with if / elif / else / try / except / finally / with / for / while; a position in
+    the last clause (nothing of the statement starts after it) has none"""
+    keyword = None
+    for c in children:
+        if pos < c.start_pos:
+            return keyword
+        if c.get_first_leaf() in ('try', 'except', 'finally', 'else', 'if', 'elif', 'with', 'for', 'while'):
+            keyword = c.get_first_leaf()
+    return None
 
 _PN = Obj('PNode')
 
@@ -333,7 +346,8 @@ _branch_kw = [Contract(
     requires=['not flow_node.is_leaf', 'flow_node.children == CH'],
     raises={'ValueError': 'not (flow_node.start_pos < node.start_pos and node.start_pos <= flow_node.end_pos)'},
     raises_iff=['ValueError'],
-    ensures=['implies(result is not None, any(the(result) is c.get_first_leaf() for c in CH))'],
+    ensures=['implies(result is not None, any(the(result) is c.get_first_leaf() for c in CH))',
+             'result == branch_keyword_spec(CH, node.start_pos)'],
     witness={}, replay=_replay_branch_kw, concrete_only=True,
     witness_library=[
         {'code': 'if a:\n    n1\n    n2\nelif b:\n    n3\nelif c:\n    n4\nelse:\n    n5\n',
